@@ -31,6 +31,22 @@ Theorem C13_tree_bytes_tree : forall ts, ts <> [] -> canon_fields ts = true ->
   convert b = Ok ts.
 Proof. exact tree_bytes_tree. Qed.
 
+(* EVERY accepted byte string (bytes < 256, canonical bools or not): the tree returned is canonical — element
+   ids are the index as int16, KeyType/ValType are set exactly where they mean something, values in range —
+   it is non-empty and denotes exactly as many bytes as were given; hence (with C13_tree_bytes_tree) the
+   computed length is the input's byte count, the write fills exactly that many bytes, and converting what
+   was written gives the same tree again (the written bytes differ from the input at most in non-canonical
+   bool bytes, which ReadBool maps to false). *)
+Theorem C13_convert_canonical : forall b t, wf b -> convert b = Ok t ->
+  canon_fields t = true /\ t <> [] /\ len (enc_tree_fields t) = len b.
+Proof. exact convert_canonical. Qed.
+Theorem C13_accepted_bytes_round_trip : forall b t, wf b -> convert b = Ok t ->
+  let w := enc_tree_fields t in
+  len w = len b /\ fields_len t = Ok (len b) /\
+  (forall buf, len b <= len buf -> write_fields buf t = Ok (w ++ drop (len b) buf, len b)) /\
+  convert w = Ok t.
+Proof. exact convert_then_write. Qed.
+
 (* ARBITRARY bytes (C03 reuses this): ConvertUnknownFields never panics — no slice beyond the buffer, no
    negative make — whatever the input; the model's recursion and loop budgets are never exhausted (so the
    budget is not what produces an error: every nesting level consumes bytes); and a single value read
@@ -62,6 +78,9 @@ Proof. exact d9_without_reset_refuted. Qed.
 (* non-vacuity of the hypotheses *)
 Example C13_nonvacuous_fields : d9_value <> [] /\ wf_fields d9_value = true.
 Proof. split; [discriminate|reflexivity]. Qed.
+Example C13_nonvacuous_accepted :
+  wf (enc_fields d9_value) /\ convert (enc_fields d9_value) = Ok (tree_of_fields d9_value).
+Proof. split; [apply wfbb_wf; reflexivity|exact d9_repaired]. Qed.
 Example C13_nonvacuous_trees :
   tree_of_fields d9_value <> [] /\ canon_fields (tree_of_fields d9_value) = true.
 Proof. split; [discriminate|reflexivity]. Qed.
